@@ -6,13 +6,59 @@ A description is the JSON the Lean driver `TDV.Drv.Nodes.handle` takes:
   {"op":"map","f":F,"src":D} | {"op":"batch","bs":n,"drop_last":b,"src":D} | {"op":"unbatch","src":D}
   {"op":"filter","p":P,"src":D} | {"op":"buffered","sf":n,"pf":n,"src":D}            (Prefetcher)
   {"op":"prebatch_map","f":F,"pb":n,"src":D}                                       (ParallelMapper(num_workers=0, prebatch))
-  {"op":"pmap","f":F,"sf":n,"nw":n,"pb":n|null,"src":D}                             (ParallelMapper(num_workers>0, thread, in_order))
+  {"op":"pmap","f":F,"sf":n,"nw":n,"pb":n|null,"method":"thread"|"process","in_order":b,"src":D}
+                                                                                   (ParallelMapper(num_workers>0))
 Items: int | None | list of items.
+
+Every case runs inside a `vsched.Session` (virtual scheduler): Prefetcher / ParallelMapper threads and (virtual)
+processes are the REAL code on virtual primitives, scheduled deterministically from a seed that is part of the
+case: `sched = {"seed": n, "adv": bool, "weights": {...}|None}`.
 """
 from __future__ import annotations
 
+import contextlib
 import copy
+import gc
 from typing import Any, Dict, List, Optional, Tuple
+
+from .. import vsched
+
+READER_NAMES = ("read_thread", "worker_thread(target=_populate_queue)")
+
+
+def gen_sched(rng) -> Dict[str, Any]:
+    """A schedule: seed, adversarial timeouts on/off, sometimes a starved reader or a starved consumer."""
+    r = rng.random()
+    w = None
+    if r < 0.2:
+        w = {n: 0.05 for n in READER_NAMES}
+    elif r < 0.4:
+        w = {"main": 0.05}
+    return {"seed": rng.randrange(1 << 30), "adv": rng.random() < 0.5, "weights": w}
+
+
+@contextlib.contextmanager
+def session(sched: Optional[Dict[str, Any]], nodes: List[Any]):
+    """Runs the body under a virtual scheduler; every node appended to `nodes` is shut down before the session
+    closes.  The garbage collector is off during the case and runs at the end, inside the session, so that
+    `__del__` -> `_shutdown()` of abandoned iterators happens at a fixed point of the schedule."""
+    sched = sched or {"seed": 0, "adv": False, "weights": None}
+    gc.collect()
+    gc.disable()
+    try:
+        with vsched.Session(sched["seed"], adversarial=bool(sched.get("adv")), weights=sched.get("weights") or None) as s:
+            try:
+                yield s
+            finally:
+                try:
+                    for n in nodes:
+                        shutdown(n)
+                    del nodes[:]
+                    gc.collect()
+                except BaseException:  # noqa: BLE001  (a hang while cleaning up is not the case's verdict)
+                    pass
+    finally:
+        gc.enable()
 
 
 class MapErr(ArithmeticError):
@@ -143,8 +189,8 @@ def build_real(d: Dict[str, Any]):
     if op == "prebatch_map":
         return N.ParallelMapper(src, MAP_FNS[d["f"]], num_workers=0, prebatch=d["pb"])
     if op == "pmap":
-        return N.ParallelMapper(src, MAP_FNS[d["f"]], num_workers=d.get("nw", 2), in_order=True, method="thread",
-                                snapshot_frequency=d["sf"], prebatch=d.get("pb"))
+        return N.ParallelMapper(src, MAP_FNS[d["f"]], num_workers=d.get("nw", 2), in_order=d.get("in_order", True),
+                                method=d.get("method", "thread"), snapshot_frequency=d["sf"], prebatch=d.get("pb"))
     raise ValueError(op)
 
 
@@ -191,39 +237,42 @@ def canon_item(x):
     return x
 
 
-def run_ops_real(d: Dict[str, Any], ops: List[Any]) -> List[Any]:
-    """Observations in the driver's format; stops after a reset that raised."""
-    node = build_real(d)
-    nodes = [node]
+def run_ops_real(d: Dict[str, Any], ops: List[Any], sched: Optional[Dict[str, Any]] = None) -> List[Any]:
+    """Observations in the driver's format; stops after a reset that raised and at a hang ("hang")."""
+    nodes: List[Any] = []
     toks: List[Any] = []
     obs: List[Any] = []
-    try:
-        for o in ops:
-            if o == "next":
-                try:
-                    obs.append({"i": canon_item(next(node))})
-                except StopIteration:
-                    obs.append("stop")
-                except Exception as e:  # noqa: BLE001
-                    obs.append({"e": err_code(e)})
-            elif o == "get":
-                obs.append(len(toks))
-                toks.append(copy.deepcopy(node.state_dict()))
-            elif o == "fresh":
-                node = build_real(d)
-                nodes.append(node)
-                obs.append("ok")
-            else:
-                sd = None if o == "reset_none" else copy.deepcopy(toks[o[1]])
-                try:
-                    node.reset(sd)
+    with session(sched, nodes) as s:
+        node = build_real(d)
+        nodes.append(node)
+        try:
+            for o in ops:
+                s.begin_op()
+                if o == "next":
+                    try:
+                        obs.append({"i": canon_item(next(node))})
+                    except StopIteration:
+                        obs.append("stop")
+                    except Exception as e:  # noqa: BLE001
+                        obs.append({"e": err_code(e)})
+                elif o == "get":
+                    obs.append(len(toks))
+                    toks.append(copy.deepcopy(node.state_dict()))
+                elif o == "fresh":
+                    node = build_real(d)
+                    nodes.append(node)
                     obs.append("ok")
-                except Exception:  # noqa: BLE001
-                    obs.append("raise")
-                    break
-    finally:
-        for n in nodes:
-            shutdown(n)
+                else:
+                    sd = None if o == "reset_none" else copy.deepcopy(toks[o[1]])
+                    try:
+                        node.reset(sd)
+                        obs.append("ok")
+                    except Exception:  # noqa: BLE001
+                        obs.append("raise")
+                        break
+        except vsched.VHang as h:
+            obs.append("hang: " + str(h)[:120])
+        node = None
     return obs
 
 
@@ -247,12 +296,12 @@ def info(d) -> Dict[str, Any]:
     if op in ("list", "stateful"):
         depths = {_depth(x) for x in d["items"]}
         dep = depths.pop() if len(depths) == 1 else (0 if not depths else -1)
-        return {"depth": dep, "may_err": False, "threaded": False, "size": 1, "has_none": _has_none(d["items"])}
+        return {"depth": dep, "may_err": False, "threaded": False, "unordered": False, "size": 1, "has_none": _has_none(d["items"])}
     if op == "sampler":
         its = [x for e in d["epochs"] for x in e]
         depths = {_depth(x) for x in its}
         dep = depths.pop() if len(depths) == 1 else (0 if not depths else -1)
-        return {"depth": dep, "may_err": False, "threaded": False, "size": 1, "has_none": _has_none(its)}
+        return {"depth": dep, "may_err": False, "threaded": False, "unordered": False, "size": 1, "has_none": _has_none(its)}
     s = info(d["src"])
     r = dict(s)
     r["size"] = s["size"] + 1
@@ -269,6 +318,8 @@ def info(d) -> Dict[str, Any]:
             r["depth"] = s["depth"] + 1 if s["depth"] >= 0 else -1
         if op == "pmap":
             r["threaded"] = True
+            if not d.get("in_order", True) and d.get("nw", 2) > 1:
+                r["unordered"] = True
     elif op == "batch":
         r["depth"] = s["depth"] + 1 if s["depth"] >= 0 else -1
     elif op == "unbatch":
@@ -344,7 +395,7 @@ def gen_items(rng, n, allow_none=True, depth=0):
 
 
 def gen_leaf(rng, maxlen=7):
-    n = rng.choice([0, 1, 1, 2, 3, 4, 5, 6, 7][: maxlen + 2])
+    n = rng.choice([x for x in [0, 1, 1, 2, 3, 4, 5, 6, 7] if x <= maxlen])
     depth = 1 if rng.random() < 0.15 else 0
     allow_none = rng.random() < 0.5
     r = rng.random()
@@ -353,54 +404,84 @@ def gen_leaf(rng, maxlen=7):
     if r < 0.7:
         return {"op": "stateful", "items": gen_items(rng, n, allow_none, depth)}
     ne = rng.choice([1, 2, 3])
-    return {"op": "sampler", "epochs": [gen_items(rng, rng.choice([0, 1, 2, 3, 4, 5, 6]) if i else n, allow_none, depth) for i in range(ne)],
+    return {"op": "sampler", "epochs": [gen_items(rng, rng.choice([x for x in [0, 1, 2, 3, 4, 5, 6] if x <= maxlen]) if i else n, allow_none, depth) for i in range(ne)],
             "upd": rng.choice(["inc", "inc", "add2", "same"]), "e0": rng.choice([0, 0, 1, 2])}
 
 
-def gen_pipe(rng, depth: int, allow_err: bool, allow_threads: bool, budget: Optional[List[int]] = None):
-    """Random pipeline with at most `depth` operators above the leaf. budget[0] = number of threaded
-    nodes still allowed."""
-    if budget is None:
-        budget = [1 if allow_threads else 0]
-    d = gen_leaf(rng)
+def _assemble(chain: List[Dict[str, Any]]):
+    d = copy.deepcopy(chain[0])
+    for op in chain[1:]:
+        nd = copy.deepcopy(op)
+        nd["src"] = d
+        d = nd
+    return d
+
+
+def _gen_threaded_op(rng, sub, unordered_ok: bool) -> Dict[str, Any]:
+    """A Prefetcher or a ParallelMapper(num_workers>0) to put on top of `sub`.  A ParallelMapper is only put
+    over pipelines that cannot raise (a source error leaves its next() hanging, C11) and gets a function that
+    cannot raise on what arrives."""
+    s = info(sub)
+    if s["may_err"] or rng.random() < 0.45:
+        return {"op": "buffered", "sf": rng.choice([0, 1, 1, 2, 3]), "pf": rng.choice([1, 2, 4])}
+    fs = ["id", "id"]
+    if s["depth"] == 0 and not s["has_none"]:
+        fs += ["inc", "dbl"]
+    nw = rng.choice([1, 2, 2, 3])
+    in_order = True
+    if nw == 1 and rng.random() < 0.3:
+        in_order = False          # one worker: the order is still the source order
+    elif unordered_ok and nw > 1 and rng.random() < 0.5:
+        in_order = False
+    return {"op": "pmap", "f": rng.choice(fs), "sf": rng.choice([0, 1, 1, 2, 3]), "nw": nw,
+            "pb": rng.choice([None, None, 2, 3]), "method": rng.choice(["thread", "thread", "thread", "process"]),
+            "in_order": in_order}
+
+
+def gen_pipe(rng, depth: int, allow_err: bool, p_thread: float = 0.4, unordered_root: bool = False, maxlen: int = 7):
+    """Random pipeline with at most `depth` sequential operators above the leaf; with probability `p_thread`
+    one or two threaded operators (Prefetcher / ParallelMapper with workers) are inserted at random places.
+    unordered_root: the root may be a ParallelMapper(in_order=False) with several workers."""
+    chain: List[Dict[str, Any]] = [gen_leaf(rng, maxlen)]
     for _ in range(rng.randrange(0, depth + 1)):
-        s = info(d)
+        s = info(_assemble(chain))
         choices = ["map", "batch", "filter", "prebatch_map"]
         if s["depth"] >= 1 or (allow_err and rng.random() < 0.1):
             choices += ["unbatch", "unbatch"]
-        if budget[0] > 0 and rng.random() < 0.5:
-            choices.append("buffered")
-            if not s["may_err"]:
-                choices.append("pmap")
         op = rng.choice(choices)
-        if op in ("map", "prebatch_map", "pmap"):
+        if op in ("map", "prebatch_map"):
             fs = ["id", "none_if_odd", "wrap", "rep"]
             if s["depth"] == 0 and not s["has_none"]:
                 fs += ["inc", "dbl", "inc"]
-            if allow_err and op != "pmap":
+            if allow_err:
                 fs += ["err_if_3", "inc"]
             f = rng.choice(fs)
-            if op == "map":
-                nd = {"op": "map", "f": f, "src": d}
-            elif op == "prebatch_map":
-                nd = {"op": "prebatch_map", "f": f, "pb": rng.choice([1, 2, 3]), "src": d}
-            else:
-                nd = {"op": "pmap", "f": f, "sf": rng.choice([0, 1, 2, 3]), "nw": rng.choice([1, 2]),
-                      "pb": rng.choice([None, None, 2]), "src": d}
-                budget[0] -= 1
+            nd = {"op": "map", "f": f} if op == "map" else {"op": "prebatch_map", "f": f, "pb": rng.choice([1, 2, 3])}
         elif op == "batch":
-            nd = {"op": "batch", "bs": rng.choice([1, 2, 2, 3, 4]), "drop_last": rng.random() < 0.5, "src": d}
+            nd = {"op": "batch", "bs": rng.choice([1, 2, 2, 3, 4]), "drop_last": rng.random() < 0.5}
         elif op == "unbatch":
-            nd = {"op": "unbatch", "src": d}
-        elif op == "filter":
-            nd = {"op": "filter", "p": rng.choice(["is_even", "truthy", "not_none", "all", "nothing"]), "src": d}
+            nd = {"op": "unbatch"}
         else:
-            nd = {"op": "buffered", "sf": rng.choice([0, 1, 2, 3]), "pf": rng.choice([1, 2, 4]), "src": d}
-            budget[0] -= 1
-        if not allow_err and info(nd)["may_err"]:
+            nd = {"op": "filter", "p": rng.choice(["is_even", "truthy", "not_none", "all", "nothing"])}
+        if not allow_err and info(_assemble(chain + [nd]))["may_err"]:
             continue
-        d = nd
-    return d
+        chain.append(nd)
+    if rng.random() < p_thread:
+        for _ in range(rng.choice([1, 1, 2])):
+            pos = rng.randrange(1, len(chain) + 1)
+            at_root = pos == len(chain)
+            top = _gen_threaded_op(rng, _assemble(chain[:pos]), unordered_root and at_root)
+            cand = chain[:pos] + [top] + chain[pos:]
+            if top["op"] == "pmap" and info(_assemble(cand))["may_err"] and not allow_err:
+                top["f"] = "id"
+            # a ParallelMapper must never sit above something that can raise
+            ok = True
+            for i, c in enumerate(cand):
+                if c["op"] == "pmap" and info(_assemble(cand[:i]))["may_err"]:
+                    ok = False
+            if ok:
+                chain = cand
+    return _assemble(chain)
 
 
 def gen_ops(rng, n: int, with_tokens: bool, strict_epochs: bool = False) -> List[Any]:
